@@ -641,8 +641,8 @@ package internal
 //@   requires $C && f != nil && f.providers != nil
 //@   requires functions-are-distinct-objects: forall(i, int, implies(0 <= i && i < len(f.Funcs), f.Funcs[i] != nil && forall(i2, int, implies(0 <= i2 && i2 < len(f.Funcs) && i != i2, f.Funcs[i] != f.Funcs[i2]))))
 //@   requires providers-hold-function-indices: forall(t, int, implies(typeof(tmapAt(f.providers, t)) == typeid("int"), 0 <= dataof(tmapAt(f.providers, t)) && dataof(tmapAt(f.providers, t)) < len(f.Funcs)))
-//@   loop 1 invariant [C01,C02,C11] functions-scheduled-so-far: 0 <= idx1 && idx1 <= len(f.Funcs) && forall(i, int, implies(0 <= i && i < idx1, $SCHEDULED))
-//@   loop 2 invariant [C01,C02,C11] providers-appended-so-far: 0 <= idx2 && idx2 <= len(deps2) && 0 <= idx && idx < len(f.Funcs) && fn == f.Funcs[idx] && forall(j, int, implies(0 <= j && j < idx2, 0 <= v[j] && v[j] < len(fn.DependsOn) && fn.DependsOn[v[j]] == f.Funcs[deps2[j]])) && forall(i, int, implies(0 <= i && i < idx, $SCHEDULED))
+//@   loop 1 invariant [C01,C02,C11,C07] functions-scheduled-so-far: 0 <= idx1 && idx1 <= len(f.Funcs) && forall(i, int, implies(0 <= i && i < idx1, $SCHEDULED))
+//@   loop 2 invariant [C01,C02,C11,C07] providers-appended-so-far: 0 <= idx2 && idx2 <= len(deps2) && 0 <= idx && idx < len(f.Funcs) && fn == f.Funcs[idx] && forall(j, int, implies(0 <= j && j < idx2, 0 <= v[j] && v[j] < len(fn.DependsOn) && fn.DependsOn[v[j]] == f.Funcs[deps2[j]])) && forall(i, int, implies(0 <= i && i < idx, $SCHEDULED))
 //@   at call Dependencies 1 ghost deps2 = ret
 //@   at store DependsOn 1 ghost v[idx2] = len(target.DependsOn) - 1
 //@   ghost ord slice[int]
